@@ -3,6 +3,9 @@ mod checks_e1;
 mod checks_e2;
 mod e1;
 mod e2;
+mod e4;
+mod http;
+mod checks_e4;
 mod e6;
 mod gen;
 mod model;
@@ -45,6 +48,7 @@ fn main() {
                 "C08" => checks_e1::run("C08", &tier, seed),
                 "C09" => checks_e1::run("C09", &tier, seed),
                 "C12" => e6::run(&tier, seed),
+                "C13" => checks_e4::run("C13", &tier, seed),
                 "C02" => checks_e2::run("C02", &tier, seed),
                 "C03" => checks_e2::run("C03", &tier, seed),
                 "C11" => checks_e2::run("C11", &tier, seed),
